@@ -143,7 +143,10 @@ func runSigRepoRemote() int {
 			if viaClient && perr == nil {
 				// the registry after the push: the envelope among the blobs (and not among the manifests), the manifest among the manifests
 				after := reg.snapshot()
-				has := func(l []string, d digest.Digest) bool { i := sort.SearchStrings(l, d.String()); return i < len(l) && l[i] == d.String() }
+				has := func(l []string, d digest.Digest) bool {
+					i := sort.SearchStrings(l, d.String())
+					return i < len(l) && l[i] == d.String()
+				}
 				if !has(after.Blobs, bd.Digest) || has(after.Manifests, bd.Digest) {
 					frame = append(frame, "envelope-not-a-blob")
 				}
